@@ -57,6 +57,24 @@ def run(ctx):
         sim = rand_system(rebound, rng, n, test_particles=rng.choice([0, 0, 1, 2]) if n > 3 else 0)
         kind = k % 4
         real = None
+        corner = None
+        if k % 6 == 5:
+            # degenerate corners of the quantified space (the comparison is bit for bit, so inf, NaN and -0.0 results count):
+            # empty and one-particle simulations, all masses zero, coincident bodies, signed zeros, huge and tiny magnitudes
+            corner = rng.choice(["empty", "one", "massless", "coincident", "zeros", "huge", "tiny", "equal"])
+            if corner == "empty":
+                sim = rebound.Simulation(); n = 0
+            elif corner == "one":
+                sim = rebound.Simulation(); sim.add(m=rng.choice([0.0, 1.0]), x=rng.uniform(-1, 1), vy=rng.uniform(-1, 1)); n = 1
+            else:
+                for i_, p_ in enumerate(sim.particles):
+                    if corner == "massless": p_.m = 0.0
+                    elif corner == "coincident" and i_ > 0: p_.x, p_.y, p_.z = sim.particles[0].x, sim.particles[0].y, sim.particles[0].z
+                    elif corner == "zeros": p_.x, p_.vy, p_.z = rng.choice([0.0, -0.0]), rng.choice([0.0, -0.0]), -0.0
+                    elif corner == "huge": p_.x *= 1e140; p_.vx *= 1e140
+                    elif corner == "tiny": p_.x *= 1e-140; p_.m *= 1e-140
+                    elif corner == "equal": p_.m = sim.particles[0].m
+            if kind == 3 and corner in ("empty", "coincident"): kind = rng.choice([0, 1, 2])   # the step itself is not the subject here
         if kind != 3 and rng.random() < 0.3 and n >= 2:
             # the diagnostics are defined over the REAL particles: variational particles must not enter them
             real = plist(sim)
@@ -65,7 +83,8 @@ def run(ctx):
                 for q in v.particles:
                     q.m = rng.uniform(-1, 1); q.x, q.y, q.z, q.vx, q.vy, q.vz = [rng.uniform(-3, 3) for _ in range(6)]
         if kind == 0:
-            nact = rng.choice([-1, -1, rng.randint(1, n)])
+            nact = rng.choice([-1, -1, rng.randint(1, n)]) if n >= 1 else -1
+            if corner and n >= 1 and rng.random() < 0.5: nact = rng.choice([0, 1, n])
             sim.N_active = nact
             sim.testparticle_type = rng.choice([0, 1])
             sim.energy_offset = rng.choice([0.0, rng.uniform(-1, 1)])
@@ -87,7 +106,7 @@ def run(ctx):
             got = sum(plist(sim), [])
             term = "(leapfrogF %s %s %s)" % (vlib.fhex(sim.dt), ll(before), ll(acc))
         cases.append((term, got, ["energy", "angmom", "com", "leapfrog"][kind], n))
-        ctx.case(key=(kind, n, k % 7), sample={"kind": cases[-1][2], "N": n} if k < 4 else None)
+        ctx.case(key=(kind, n, k % 7, corner), sample={"kind": cases[-1][2], "N": n} if k < 4 else None)
     jobs = []; chunk = 60
     for c0 in range(0, len(cases), chunk):
         body = ("From Coq Require Import List ZArith PrimFloat.\nFrom RV Require Import Common.FloatNum C04.Run.\nImport ListNotations.\n"
